@@ -176,13 +176,22 @@ def work_seq(case):
     return out
 
 
+def _budget_check():
+    """The worker's CPU budget is delivered as an exception inside the case; code under test that swallows it (bare except in a parsing loop)
+    keeps running.  At every stage boundary the case gives up for good once the budget has fired."""
+    from vlib import worker
+    if worker._TICKS >= worker._N_TICKS:
+        raise worker.CpuBudget()
+
+
 def work(case):
     import time
     from vlib import obs
     from vlib.worker import arm_cpu
     if case["kind"] == "seq":
         return work_seq(case)
-    arm_cpu(120)
+    arm_cpu(60)
+    t_cpu = time.process_time()
     data = iso.make_input(case["recipe"])
     kind = case["kind"]
     ext = corpus.KIND_EXT[kind] if kind != "zip" else iso.source_ext(case["recipe"]["src"])
@@ -195,6 +204,7 @@ def work(case):
     try:
         ra = list(fn(buf, path))
     except Exception as e:
+        _budget_check()
         out["exc"] = obs.exc_record(e)
         # failures must be deterministic too
         try:
@@ -206,6 +216,7 @@ def work(case):
         out["digest"] = {"$exc": type(e).__name__}
         out["rechecks"] = _recheck_held(out["problems"], f"case {case['id']} ({kind}, failing)")
         return out
+    _budget_check()
     if hashlib.sha256(buf.getvalue()).hexdigest() != before or len(buf.getvalue()) != len(data):
         out["problems"].append({"cmp": "buffer", "field": "caller-buffer-content-changed"})
     # digests are taken before any observer is called
@@ -265,6 +276,7 @@ def work(case):
     if d is not None and time.perf_counter() - t0 < 0.02:          # only cheap-to-digest results are kept
         _HELD.append([f"case {case['id']} ({kind} {case['recipe']['src'][1:]} path={path!r})", _fmt_of(kind, case["recipe"]), ra[:4], d])
         del _HELD[:-HELD_MAX]
+    out["cpu_s"] = round(time.process_time() - t_cpu, 2)
     return out
 
 
@@ -329,22 +341,28 @@ def main(run):
     by_seed = {}
     problems = {}
     notes = {}
+    slow = []
     input_shas = {}
     words = rechecks = seq_steps = 0
+    gave_up = set()         # cases that used up their CPU budget / died in one pass cannot be compared: they are not run again in the later passes
     for hs in ("0", "1", "2", "random"):
         digests = {}
-        for case, ob in pool.run_cases("checks.c06:work", cases, deadline_s=300, hashseed=hs, rlimit_as=2 * 2**30):
+        for case, ob in pool.run_cases("checks.c06:work", [c for c in cases if c["id"] not in gave_up], deadline_s=300, hashseed=hs, rlimit_as=2 * 2**30):
             if ob.get("_harness_error"):
                 run.inconclusive("harness error: " + ob["_harness_error"])
                 print(ob.get("_tb"))
                 continue
             if ob.get("_timeout") or ob.get("_died") or ob.get("_cpu_exhausted") or ob.get("_oom"):
                 run.inconclusive_cases += 1
+                gave_up.add(case["id"])
+                run.extras.setdefault("cases_that_used_up_their_cpu_budget", []).append({"recipe": case.get("recipe"), "at": ob.get("_cpu_exhausted_at") or ob.get("_stuck_at")})
                 continue
             digests[case["id"]] = ob.get("digest", {})
             input_shas.setdefault(case["id"], set()).add(ob.get("input_sha"))
             words += ob.get("observer_words", 0)
             rechecks += ob.get("rechecks", 0)
+            if ob.get("cpu_s", 0) > 5:
+                slow.append((ob["cpu_s"], hs, case.get("recipe")))
             seq_steps += ob.get("steps", 0)
             for p in ob.get("problems", []):
                 problems.setdefault(case["id"], set()).add((p["cmp"], p["field"], p.get("fmt")))
@@ -396,6 +414,7 @@ def main(run):
         run.case(f"{c['kind']}:{feat}:{mutated}:{len(ref)}:{','.join(sorted(seen))}", nontrivial=bool(ref) and "$exc" not in ref,
                  sample={"kind": c["kind"], "src": src, "op": c.get("recipe", {}).get("op"), "fields_digested": len(ref), "problems": sorted(seen)} if cid % 53 == 0 else None)
     run.count("inputs_compared_across_4_hash_seeds", compared)
+    run.extras["slowest_cases_cpu_s"] = [list(x) for x in sorted(slow, key=lambda x: -x[0])[:8]]
     if unstable_inputs:
         run.extras["inputs_not_bit_identical_across_passes"] = unstable_inputs[:20]
         run.inconclusive(f"{len(unstable_inputs)} generated inputs were not bit-identical in the four passes and gave different results (generator not deterministic or edited during the run), e.g. {unstable_inputs[:3]}")
